@@ -122,6 +122,32 @@ Theorem C18_listing : forall s h l, fh_opendir s h = Ok l ->
 Proof. exact fh_opendir_listing. Qed.
 Print Assumptions C18_listing.
 
+(* the children map changes in three ways only:
+   create links exactly one new name in the parent and changes no other node; *)
+Theorem C18_listing_create : forall s p nm c s', link_child s p nm c = Ok s' ->
+  exists cs, n_children (getn s p) = Some cs /\ lookup_child cs nm = None /\
+    n_children (getn s' p) = Some (cs ++ [(nm, c)]) /\ (forall y, y <> p -> getn s' y = getn s y).
+Proof. exact link_child_exact. Qed.
+Print Assumptions C18_listing_create.
+
+(* remove takes exactly the link name -> c out of the parent, and only while it still leads to c
+   (a stale fid cannot remove a newer entry of the same name); *)
+Theorem C18_listing_remove : forall s p nm c s', unlink_child s p nm c = Ok s' ->
+  exists cs, n_children (getn s p) = Some cs /\ lookup_child cs nm = Some c /\
+    n_children (getn s' p) = Some (remove_child cs nm) /\ (forall y, y <> p -> getn s' y = getn s y).
+Proof. exact unlink_child_exact. Qed.
+Print Assumptions C18_listing_remove.
+
+(* releasing references clears the children of a node only when its count goes from positive to 0,
+   and never touches names, metadata or bytes. *)
+Theorem C18_listing_release : forall fuel s x s', decref fuel s x = Some s' ->
+  forall y, n_info (getn s' y) = n_info (getn s y) /\ n_data (getn s' y) = n_data (getn s y) /\
+            n_ref (getn s' y) <= n_ref (getn s y) /\
+            (n_children (getn s' y) = n_children (getn s y) \/
+             (n_children (getn s' y) = None /\ n_ref (getn s' y) <= 0 /\ 0 < n_ref (getn s y))).
+Proof. exact decref_effect. Qed.
+Print Assumptions C18_listing_release.
+
 (* ---- walks (including '..') resolve as in a plain tree walk: [spec_walk] goes one name
    at a time over the chain root..entry by which the fid arrived - '..' drops the
    last element (the entry the fid came through, also when that link has since been
